@@ -474,7 +474,6 @@ type machine struct {
 	keys    []string // distinctness key
 	lastFx  string
 	lastEnt int // entity the last operation was issued on (-1: none)
-	before  registry
 	nt      bool
 }
 
@@ -507,7 +506,6 @@ func (m *machine) drawKnown(t *rapid.T) triple {
 
 // step performs o on the stack and on the model (has: the answer of a Has operation).
 func (m *machine) step(o op) (has bool) {
-	m.before = m.reg.clone()
 	holders, had := m.reg.holders(), m.reg.holds(o.Ent)
 	switch o.Kind {
 	case opRemoveEntity:
